@@ -1350,4 +1350,307 @@ theorem value_of_hasKey (s : State) (hw : SW s) (o : NRef) (ho : o ∈ s.objs)
     have := hw.u _ hi e he rfl
     rw [← this]
 
+
+/-! ## agreement (no single-writer hypothesis): after pushAll+fetchAll all refs are one object -/
+
+theorem subset_trans {a b c : List Nat} (h1 : subset a b = true) (h2 : subset b c = true) :
+    subset a c = true := by
+  rw [subset_iff] at *
+  exact fun x hx => h2 x (h1 x hx)
+
+/-- a stored notes commit is determined by its reachable set. -/
+def ObjId (s : State) : Prop :=
+  ∀ o ∈ s.objs, ∀ o' ∈ s.objs, subset o.reach o'.reach = true → subset o'.reach o.reach = true → o = o'
+
+theorem objId_init (n : Nat) : ObjId (init n) := by
+  intro o ho; simp [init] at ho
+
+/-- adding an object that is old, or whose reach contains an id no old object reaches. -/
+theorem objId_cons (s : State) (h : ObjId s) (m : NRef)
+    (hm : m ∈ s.objs ∨ ∃ id ∈ m.reach, ∀ o ∈ s.objs, id ∉ o.reach) :
+    ∀ o ∈ m :: s.objs, ∀ o' ∈ m :: s.objs,
+      subset o.reach o'.reach = true → subset o'.reach o.reach = true → o = o' := by
+  intro o ho o' ho' h1 h2
+  rcases hm with hm | ⟨id, hid, hfresh⟩
+  · have a : o ∈ s.objs := by rcases List.mem_cons.1 ho with rfl | h' <;> assumption
+    have b : o' ∈ s.objs := by rcases List.mem_cons.1 ho' with rfl | h' <;> assumption
+    exact h o a o' b h1 h2
+  · rcases List.mem_cons.1 ho with rfl | a
+    · rcases List.mem_cons.1 ho' with rfl | b
+      · rfl
+      · exact absurd ((subset_iff _ _).1 h1 id hid) (hfresh o' b)
+    · rcases List.mem_cons.1 ho' with rfl | b
+      · exact absurd ((subset_iff _ _).1 h2 id hid) (hfresh o a)
+      · exact h o a o' b h1 h2
+
+theorem notesMerge_old_or_fresh (s : State) (hs : Inv s) (l t : NRef) (hl : l ∈ s.objs) (ht : t ∈ s.objs) :
+    notesMerge s.objs s.next l t ∈ s.objs ∨
+    ∃ id ∈ (notesMerge s.objs s.next l t).reach, ∀ o ∈ s.objs, id ∉ o.reach := by
+  unfold notesMerge
+  split
+  · exact Or.inl hl
+  · split
+    · exact Or.inl ht
+    · exact Or.inr ⟨s.next, List.mem_cons_self, fun o ho hx => absurd (hs.b1 o ho _ hx) (Nat.lt_irrefl _)⟩
+
+theorem addNote_fresh (s : State) (hs : Inv s) (loc : Option NRef) (id : Nat) (c : Oid) (v : Note)
+    (h1 : s.next ≤ id) : ∃ x ∈ (addNote loc id c v).reach, ∀ o ∈ s.objs, x ∉ o.reach := by
+  refine ⟨id, ?_, fun o ho hx => absurd (hs.b1 o ho _ hx) (Nat.not_lt.2 h1)⟩
+  unfold addNote; split <;> simp
+
+theorem objId_integrate (s : State) (hs : Inv s) (h : ObjId s) (i : Nat) (cl0 cl : Clone)
+    (hi : s.clones[i]? = some cl0) (hl : cl.loc = cl0.loc)
+    (ht : ∀ t, cl.trk = some t → t ∈ s.objs) : ObjId (integrate s i cl) := by
+  unfold integrate
+  split
+  · exact h
+  · rename_i t htt
+    split
+    · exact h
+    · rename_i l hll
+      exact objId_cons s h _ (notesMerge_old_or_fresh s hs l t (hs.rl i cl0 l hi (hl ▸ hll)) (ht t htt))
+
+theorem objId_step (s : State) (hs : Inv s) (h : ObjId s) (op : Op) : ObjId (step s op) := by
+  have hf : ∀ i, ObjId (stepFetch s i) := by
+    intro i
+    unfold stepFetch; split
+    · exact h
+    · rename_i cl hi
+      split
+      · exact h
+      · rename_i r hr
+        exact objId_integrate s hs h i cl _ hi rfl (fun t ht => by cases ht; exact hs.rr r hr)
+  have hpf : ∀ i, ObjId (stepPFetch s i) := by
+    intro i
+    unfold stepPFetch; split
+    · exact h
+    · split <;> exact h
+  have hpm : ∀ (s : State), Inv s → ObjId s → ∀ i, ObjId (stepPMerge s i) := by
+    intro s hs h i
+    unfold stepPMerge; split
+    · exact h
+    · rename_i cl hi
+      split
+      · exact objId_integrate s hs h i cl _ hi rfl (fun t ht => hs.rt i cl t hi ht)
+      · exact h
+  have hps : ∀ (s : State), ObjId s → ∀ i, ObjId (stepPSend s i) := by
+    intro s h i
+    unfold stepPSend; split
+    · exact h
+    · dsimp only
+      split
+      · exact h
+      · split
+        · exact h
+        · split <;> exact h
+  cases op with
+  | commit i =>
+    show ObjId (stepCommit s i)
+    unfold stepCommit; split
+    · exact h
+    · exact objId_cons s h _ (Or.inr (addNote_fresh s hs _ _ _ _ (by omega)))
+  | rewrite i c =>
+    show ObjId (stepRewrite s i c)
+    unfold stepRewrite; split
+    · exact h
+    · exact objId_cons s h _ (Or.inr (addNote_fresh s hs _ _ _ _ (by omega)))
+  | fetch i => exact hf i
+  | pull i => exact hf i
+  | push i => exact hps _ (hpm _ (inv_stepPFetch s hs i) (hpf i) i) i
+  | pFetch i => exact hpf i
+  | pMerge i => exact hpm s hs h i
+  | pSend i => exact hps s h i
+
+theorem objId_run (σ : List Op) (s : State) (hs : Inv s) (h : ObjId s) : ObjId (run σ s) := by
+  induction σ generalizing s with
+  | nil => exact h
+  | cons op σ ih => exact ih _ (inv_step s hs op) (objId_step s hs h op)
+
+/-- the remote ref only moves to descendants. -/
+theorem remote_chain_pSend (s : State) (i : Nat) (r : NRef) (hr : s.remote = some r) :
+    ∃ r', (stepPSend s i).remote = some r' ∧ subset r.reach r'.reach = true := by
+  unfold stepPSend
+  split
+  · exact ⟨r, hr, subset_refl _⟩
+  · dsimp only
+    split
+    · exact ⟨r, hr, subset_refl _⟩
+    · rename_i l hl
+      split
+      · rename_i hn; rw [hr] at hn; cases hn
+      · rename_i r0 hr0
+        rw [hr] at hr0; cases hr0
+        split
+        · rename_i hsub; exact ⟨l, rfl, hsub⟩
+        · exact ⟨r, hr, subset_refl _⟩
+
+theorem remote_chain_push (s : State) (i : Nat) (r : NRef) (hr : s.remote = some r) :
+    ∃ r', (step s (.push i)).remote = some r' ∧ subset r.reach r'.reach = true :=
+  remote_chain_pSend _ i r (by rw [remote_pMerge, remote_pFetch]; exact hr)
+
+theorem pSend_remote_none (s : State) (i : Nat) (cl : Clone) (hi : s.clones[i]? = some cl)
+    (hr : s.remote = none) : (stepPSend s i).remote = cl.loc := by
+  unfold stepPSend
+  rw [hi]
+  dsimp only
+  cases hl : cl.loc with
+  | none => simp only [hr]
+  | some l => simp only [hr]
+
+/-- clone `i` right after its own uninterrupted push: its local ref *is* the remote ref
+    (or neither exists). -/
+theorem push_result (s : State) (i : Nat) (cl : Clone) (hi : s.clones[i]? = some cl) :
+    ∃ cl', (step s (.push i)).clones[i]? = some cl' ∧ cl'.loc = (step s (.push i)).remote := by
+  show ∃ cl', (stepPSend (stepPMerge (stepPFetch s i) i) i).clones[i]? = some cl' ∧
+      cl'.loc = (stepPSend (stepPMerge (stepPFetch s i) i) i).remote
+  rw [clones_pSend]
+  cases hr : s.remote with
+  | some r =>
+    obtain ⟨cl2, l, hc2, hl2, hsub⟩ := push_merge_some s i cl r hi hr
+    refine ⟨cl2, hc2, ?_⟩
+    rw [hl2]
+    exact (pSend_delivers _ i cl2 l hc2 hl2 (fun r' hr' => by
+      rw [remote_pMerge, remote_pFetch, hr] at hr'; cases hr'; exact hsub)).symm
+  | none =>
+    rw [pFetch_none s i cl hi hr]
+    have hc1 : (s.clones.set i { cl with fetchOk := false })[i]? = some { cl with fetchOk := false } :=
+      clone_set_self _ _ cl _ hi
+    have hm : stepPMerge { s with clones := s.clones.set i { cl with fetchOk := false } } i
+        = { s with clones := s.clones.set i { cl with fetchOk := false } } := by
+      unfold stepPMerge
+      simp only [hc1]
+      simp
+    rw [hm]
+    exact ⟨_, hc1, (pSend_remote_none
+      { s with clones := s.clones.set i { cl with fetchOk := false } } i _ hc1 hr).symm⟩
+
+/-- after `push 0 … push (m-1)`: every clone `< m` has no local ref or an ancestor of the remote. -/
+theorem pushAll_ancestors (m : Nat) (s : State) (hs : Inv s) :
+    ∀ i, i < m → ∀ cl, (run (pushAll m) s).clones[i]? = some cl →
+      cl.loc = none ∨ ∃ l r, cl.loc = some l ∧ (run (pushAll m) s).remote = some r ∧
+        subset l.reach r.reach = true := by
+  induction m with
+  | zero => intro i h; exact absurd h (Nat.not_lt_zero _)
+  | succ m ih =>
+    have hi := (pushAll_delivers m s hs).1
+    have e : pushAll (m + 1) = pushAll m ++ [Op.push m] := by simp [pushAll, List.range_succ]
+    rw [e, run_snoc]
+    intro i hlt cl hcl
+    rcases Nat.lt_succ_iff_lt_or_eq.1 hlt with h | h
+    · rw [clones_frame_step _ hi (.push m) i (by simp [Op.who]; omega)] at hcl
+      rcases ih i h cl hcl with hn | ⟨l, r, hl, hr, hsub⟩
+      · exact Or.inl hn
+      · obtain ⟨r', hr', hsub'⟩ := remote_chain_push _ m r hr
+        exact Or.inr ⟨l, r', hl, hr', subset_trans hsub hsub'⟩
+    · subst h
+      have hlen : i < (run (pushAll i) s).clones.length := by
+        have := length_step _ hi (.push i)
+        rcases Nat.lt_or_ge i (run (pushAll i) s).clones.length with h | h
+        · exact h
+        · rw [List.getElem?_eq_none (by rw [this]; exact h)] at hcl; cases hcl
+      obtain ⟨cl', hc', hl'⟩ := push_result _ i _ (List.getElem?_eq_getElem hlen)
+      rw [hcl] at hc'; cases hc'
+      cases hl : cl.loc with
+      | none => exact Or.inl rfl
+      | some l => exact Or.inr ⟨l, l, rfl, by rw [← hl']; exact hl, subset_refl _⟩
+
+/-- fetching a descendant of the local ref fast-forwards to it (or copies it). -/
+theorem fetch_ff (s : State) (hs : Inv s) (ho : ObjId s) (i : Nat) (cl : Clone) (r : NRef)
+    (hi : s.clones[i]? = some cl) (hr : s.remote = some r)
+    (hanc : cl.loc = none ∨ ∃ l, cl.loc = some l ∧ subset l.reach r.reach = true) :
+    ∃ cl', (stepFetch s i).clones[i]? = some cl' ∧ cl'.loc = some r := by
+  unfold stepFetch
+  rw [hi]
+  simp only [hr]
+  unfold integrate
+  simp only
+  rcases hanc with hn | ⟨l, hl, hsub⟩
+  · simp only [hn]
+    exact ⟨_, clone_set_self _ _ cl _ hi, rfl⟩
+  · simp only [hl]
+    refine ⟨_, clone_set_self _ _ cl _ hi, ?_⟩
+    have : notesMerge s.objs s.next l r = r := by
+      unfold notesMerge
+      split
+      · rename_i h2
+        exact ho l (hs.rl i cl l hi hl) r (hs.rr r hr) hsub h2
+      · simp
+    simp [this]
+
+/-- **agreement**: from any state satisfying the invariants, after every clone pushed and then
+    every clone fetched, every clone's local ref is the remote's ref (same notes commit). -/
+theorem agreement_from (n : Nat) (s : State) (hs : Inv s) (ho : ObjId s) (hn : s.clones.length = n) :
+    ∀ (j : Nat) (cl : Clone), (run (fetchAll n) (run (pushAll n) s)).clones[j]? = some cl →
+      cl.loc = (run (fetchAll n) (run (pushAll n) s)).remote := by
+  have hs1 := (pushAll_delivers n s hs).1
+  have ho1 := objId_run (pushAll n) s hs ho
+  have hlen1 : (run (pushAll n) s).clones.length = n := by rw [length_run _ s hs]; exact hn
+  have hanc := pushAll_ancestors n s hs
+  -- generalise over the fetch prefix
+  have key : ∀ m, m ≤ n →
+      Inv (run (fetchAll m) (run (pushAll n) s)) ∧ ObjId (run (fetchAll m) (run (pushAll n) s)) ∧
+      (run (fetchAll m) (run (pushAll n) s)).remote = (run (pushAll n) s).remote ∧
+      (∀ j, m ≤ j → (run (fetchAll m) (run (pushAll n) s)).clones[j]? = (run (pushAll n) s).clones[j]?) ∧
+      (∀ (j : Nat), j < m → ∀ (cl : Clone), (run (fetchAll m) (run (pushAll n) s)).clones[j]? = some cl →
+        cl.loc = (run (pushAll n) s).remote) := by
+    intro m
+    induction m with
+    | zero =>
+      intro _
+      exact ⟨hs1, ho1, rfl, fun _ _ => rfl, fun j h => absurd h (Nat.not_lt_zero _)⟩
+    | succ m ih =>
+      intro hm
+      obtain ⟨hi, hoi, hrem, hfr, hdone⟩ := ih (Nat.le_of_succ_le hm)
+      have e : fetchAll (m + 1) = fetchAll m ++ [Op.fetch m] := by simp [fetchAll, List.range_succ]
+      rw [e, run_snoc]
+      refine ⟨inv_step _ hi _, objId_step _ hi hoi _, (remote_fetch _ m).trans hrem, ?_, ?_⟩
+      · intro j hj
+        rw [clones_frame_step _ hi (.fetch m) j (by simp [Op.who]; omega)]
+        exact hfr j (by omega)
+      · intro j hj cl hcl
+        rcases Nat.lt_succ_iff_lt_or_eq.1 hj with h | h
+        · rw [clones_frame_step _ hi (.fetch m) j (by simp [Op.who]; omega)] at hcl
+          exact hdone j h cl hcl
+        · subst h
+          have hjn : j < n := hm
+          have hcj : (run (fetchAll j) (run (pushAll n) s)).clones[j]? = (run (pushAll n) s).clones[j]? :=
+            hfr j (Nat.le_refl _)
+          have hjl : j < (run (pushAll n) s).clones.length := by rw [hlen1]; exact hjn
+          have hex : (run (pushAll n) s).clones[j]? = some ((run (pushAll n) s).clones[j]'hjl) :=
+            List.getElem?_eq_getElem hjl
+          cases hR : (run (pushAll n) s).remote with
+          | none =>
+            -- no remote ref: the fetch finds nothing; the clone had no local ref either
+            rcases hanc j hjn _ hex with hnone | ⟨l, r, _, hr, _⟩
+            · have : (step (run (fetchAll j) (run (pushAll n) s)) (.fetch j)).clones[j]? = some cl := hcl
+              show cl.loc = none
+              have hstep : (stepFetch (run (fetchAll j) (run (pushAll n) s)) j).clones[j]? = some cl := hcl
+              unfold stepFetch at hstep
+              rw [hcj, hex] at hstep
+              simp only [hrem, hR] at hstep
+              rw [clone_set_self _ _ _ _ (hcj.trans hex)] at hstep
+              cases hstep
+              exact hnone
+            · rw [hR] at hr; cases hr
+          | some R =>
+            have hanc' : ((run (pushAll n) s).clones[j]'hjl).loc = none ∨
+                ∃ l, ((run (pushAll n) s).clones[j]'hjl).loc = some l ∧ subset l.reach R.reach = true := by
+              rcases hanc j hjn _ hex with hnone | ⟨l, r, hl, hr, hsub⟩
+              · exact Or.inl hnone
+              · rw [hR] at hr; cases hr; exact Or.inr ⟨l, hl, hsub⟩
+            obtain ⟨cl', hc', hl'⟩ := fetch_ff _ hi hoi j _ R (hcj.trans hex) (hrem.trans hR) hanc'
+            have : (stepFetch (run (fetchAll j) (run (pushAll n) s)) j).clones[j]? = some cl := hcl
+            rw [this] at hc'; cases hc'
+            exact hl'
+  obtain ⟨_, _, hrem, _, hdone⟩ := key n (Nat.le_refl _)
+  intro j cl hcl
+  rw [hrem]
+  have hjn : j < n := by
+    have hl : (run (fetchAll n) (run (pushAll n) s)).clones.length = n := by
+      rw [length_run _ _ hs1]; exact hlen1
+    rcases Nat.lt_or_ge j n with h | h
+    · exact h
+    · rw [List.getElem?_eq_none (by rw [hl]; exact h)] at hcl; cases hcl
+  exact hdone j hjn cl hcl
+
 end GitAi.Sync
